@@ -137,6 +137,21 @@ fn ep_stream(b: &[u8]) {
         let _ = st.write(chunk);
     }
     let _ = (st.entries().len(), st.to_string().len());
+    // a consumer that takes the collected entries out between writes (drain, clear, truncate)
+    for how in 0..3 {
+        let mut st = SummaryStream::new();
+        for chunk in [&b[..q], &b[q..2 * q], b"\n\n", &b[2 * q..], b"\n\n", b"PKGNAME=x-1\n\n"] {
+            let _ = st.write(chunk);
+            match how {
+                0 => st.entries_mut().clear(),
+                1 => {
+                    let _ = st.entries_mut().drain(..).count();
+                }
+                _ => st.entries_mut().truncate(1),
+            }
+        }
+        let _ = (st.entries().len(), st.to_string().len());
+    }
     let mut st = SummaryStream::new();
     for byte in b.iter().take(48) {
         let _ = st.write(std::slice::from_ref(byte));
